@@ -14,13 +14,13 @@ open Echse.Lemmas.RrMnlyOk Echse.Lemmas.RrSubRfc
 theorem minute_insts (r : Rule) (p : Inst) (hr : WfRule r) (hp : WfInst p) (hf : r.freq = 6) (x : Inst)
     (hx : MinutelyInst r (seedT p) x) (y : Inst) :
     (Instance r (seedT p) y ∧ periodOf r.freq y = periodOf r.freq x) ↔
-      ∃ s ∈ (makeEnum p r).S, y = { x with S := s } := by
+      ∃ s ∈ (subEnum p r).S, y = { x with S := s } := by
   have hI : Instance r (seedT p) y = MinutelyInst r (seedT p) y := by unfold Instance; rw [hf]; rfl
   have hP : ∀ z, periodOf r.freq z = mabsOf z := by intro z; rw [hf]; rfl
   rw [hI, hP, hP]
   obtain ⟨t1, _, _, _⟩ := seedT_time p hp
   have hne : (seedT p).H ≠ allDay := by simp only [allDay]; omega
-  have hS := (makeEnum_S r p hr hp).2
+  have hS := (subEnum_S r p hr hp).2
   obtain ⟨⟨a1, a2, a3, a4, a5, a6⟩, xne, xk, l1, l2, l3, l4, l5⟩ := hx
   rcases a6 with ⟨c, _⟩ | ⟨_, aH, aM, aS⟩
   · exact absurd c hne
@@ -45,11 +45,11 @@ theorem minute_insts (r : Rule) (p : Inst) (hr : WfRule r) (hp : WfInst p) (hf :
     exact (secExp_iff r p hr hp _).mpr hs
 
 theorem setpos_mnly (r : Rule) (p : Inst) (hr : WfRule r) (hp : WfInst p) (hf : r.freq = 6) (x : Inst)
-    (hx : MinutelyInst r (seedT p) x) (i : Nat) (hi : (x.S, i) ∈ (makeEnum p r).S.zipIdx) :
-    SetposOk r (seedT p) x ↔ posPickP r.pos i (makeEnum p r).S.length = true := by
+    (hx : MinutelyInst r (seedT p) x) (i : Nat) (hi : (x.S, i) ∈ (subEnum p r).S.zipIdx) :
+    SetposOk r (seedT p) x ↔ posPickP r.pos i (subEnum p r).S.length = true := by
   have hxne : x.H ≠ allDay := hx.2.1
-  refine setpos_generic r (seedT p) x (makeEnum p r).S (fun s => s) (fun s => { x with S := s }) i x.S
-    (makeEnum_S r p hr hp).1 (List.mem_zipIdx_iff_getElem?.mp hi) rfl (minute_insts r p hr hp hf x hx) ?_
+  refine setpos_generic r (seedT p) x (subEnum p r).S (fun s => s) (fun s => { x with S := s }) i x.S
+    (subEnum_S r p hr hp).1 (List.mem_zipIdx_iff_getElem?.mp hi) rfl (minute_insts r p hr hp hf x hx) ?_
   intro a b
   simp only [absOf, dayOf, secOf, if_neg hxne]
   omega
